@@ -61,6 +61,48 @@ fn render_soup(case: &Value) -> Vec<String> {
     }]
 }
 
+/// MC_Totality "taken": a definition named like something built in (escaped), and a use of the plain keyword after it
+fn render_taken(case: &Value) -> Vec<String> {
+    let name = case["name"].as_str().unwrap_or("int32");
+    let def = match case["kind"].as_str().unwrap_or("struct") {
+        "struct" => format!("struct \\{name} {{}}"),
+        "cstruct" => format!("compact struct \\{name} {{ v: bool }}"),
+        "enum" => format!("enum \\{name} {{ A }}"),
+        "enumu8" => format!("enum \\{name} : uint8 {{ A }}"),
+        "custom" => format!("custom \\{name}"),
+        "alias" => format!("typealias \\{name} = bool"),
+        _ => format!("interface \\{name} {{}}"),
+    };
+    // what is used: the plain keyword where the name is one, the name itself otherwise
+    let t = match name {
+        "Sequence" => "Sequence<int32>".to_owned(),
+        "Dictionary" => "Dictionary<int32, bool>".to_owned(),
+        "Result" => "Result<bool, int32>".to_owned(),
+        "module" | "Foo" => format!("\\{name}"),
+        n => n.to_owned(),
+    };
+    let user = match case["use"].as_str().unwrap_or("none") {
+        "none" => String::new(),
+        "field" => format!("struct User {{ a: {t} }}"),
+        "param" => format!("interface User {{ op(p: {t}) }}"),
+        "ret" => format!("interface User {{ op() -> {t} }}"),
+        "underlying" => format!("enum User : {t} {{ A }}"),
+        "aliastarget" => format!("typealias User = {t}"),
+        "element" => format!("struct User {{ a: Sequence<{t}> }}"),
+        "key" => format!("struct User {{ a: Dictionary<{t}, bool> }}"),
+        "base" => format!("interface User : {t} {{}}"),
+        _ => format!("struct User {{ a: \\{name} }}"),
+    };
+    let head = if case["inmodule"] == true { "module M\n" } else { "" };
+    let first = format!("{head}{def}\n{user}\n");
+    if case["second"] == true {
+        // the use stands in a second file (with a module of its own)
+        vec![format!("{head}{def}\n"), format!("module N\n{user}\n")]
+    } else {
+        vec![first]
+    }
+}
+
 fn render_typepos(case: &Value) -> Vec<String> {
     let form = case["form"].as_str().unwrap_or("prim");
     let t = match form {
@@ -144,6 +186,20 @@ fn render_scale(case: &Value) -> Vec<String> {
                 let bases: Vec<String> = (1..i).map(|j| format!("I{j}")).collect();
                 s.push_str(&format!("interface I{i} : {} {{ op{i}() }}\n", bases.join(", ")));
             }
+        }
+        "aliasdouble" => {
+            s.push_str("typealias A0 = int32\n");
+            for i in 1..=n {
+                s.push_str(&format!("typealias A{i} = Result<A{}, A{}>\n", i - 1, i - 1));
+            }
+            s.push_str(&format!("struct S {{ a: A{n} }}\n"));
+        }
+        "keydouble" => {
+            s.push_str("compact struct K0 { a: int32 }\n");
+            for i in 1..=n {
+                s.push_str(&format!("compact struct K{i} {{ a: K{}, b: K{} }}\n", i - 1, i - 1));
+            }
+            s.push_str(&format!("struct S {{ d: Dictionary<K{n}, bool> }}\n"));
         }
         "seqnest" => s.push_str(&format!("struct S {{ f: {}int32{} }}\n", "Sequence<".repeat(n), ">".repeat(n))),
         "dictnest" => s.push_str(&format!("struct S {{ f: {}int32{} }}\n", "Dictionary<int8, ".repeat(n), ">".repeat(n))),
@@ -321,6 +377,7 @@ impl Family for Totality {
         let (texts, family_name) = match fam {
             "soup" => (render_soup(case), "soup"),
             "typepos" => (render_typepos(case), "typepos"),
+            "taken" => (render_taken(case), "taken"),
             "scale" => (render_scale(case), "scale"),
             _ => match if case.get("item").is_some() { crate::fam_rules::render(case) } else { crate::fam_request::texts_of(case) } {
                 Some(t) => (t, "generated"),
@@ -341,7 +398,7 @@ impl Family for Totality {
                     "elapsed_ms": r.ms, "cpu_ms": r.cpu_ms, "expect": expect, "detail": match fam { "scale" => json!({"f": case["f"], "n": case["n"]}), "typepos" => json!({"form": case["form"], "opt": case["opt"], "pos": case["pos"]}), _ => json!({}) }}),
         );
         // the binary on real files: always for the small families, sampled for the soups
-        let with_bin = matches!(fam, "typepos" | "scale") || (fam == "soup" && (key >> 8) % 16 == 0) || (family_name == "generated" && (key >> 8) % 8 == 0);
+        let with_bin = matches!(fam, "typepos" | "scale" | "taken") || (fam == "soup" && (key >> 8) % 16 == 0) || (family_name == "generated" && (key >> 8) % 8 == 0);
         if with_bin {
             // an accepted program goes all the way: without --dry-run the generator request is built and encoded even when
             // no generator is named; for a rejected one the flag changes nothing, so it is given every other time
